@@ -203,7 +203,7 @@ def outcome(Q):
             busy.append([])
         util.append(repr(getattr(nd, "server_utilisation", None)))
     return {"recs": recs, "clock": repr(Q.current_time), "hist": hist, "busy": busy, "util": util,
-            "alldec": True, "order": []}
+            "alldec": True, "order": [], "nums": []}
 
 
 def sim(sc, N=None, horizons=None):
@@ -300,5 +300,71 @@ def pair_c15(job):
         a = json.loads(p.stdout.strip().splitlines()[-1])
         b = pair_c15_run((seed, h))
         return {"pid": pid, "prop": "C15", "a": a, "b": b, "seed": seed, "history": h}, None
+    except Exception:
+        return None, traceback.format_exc()
+
+
+# ------------------------------------------------------------------ C20 (c): exact run vs float run
+
+def nums_of(Q):
+    """per record: [id, node, type] and the numeric fields in micro-units"""
+    inds = []
+    seen = set()
+    for nd in Q.nodes[1:]:
+        for i in nd.all_individuals:
+            if id(i) not in seen:
+                seen.add(id(i))
+                inds.append(i)
+    inds.sort(key=lambda i: i.id_number)
+    order, nums, alldec = [], [], True
+    from decimal import Decimal
+    for i in inds:
+        for r in i.data_records:
+            order.append([int(r.id_number), int(r.node), str(r.record_type)])
+            row = []
+            for v in (r.arrival_date, r.waiting_time, r.service_start_date, r.service_time, r.service_end_date,
+                      r.time_blocked, r.exit_date):
+                if isinstance(v, Decimal):
+                    row.append(-1 if v.is_nan() else int(round(float(v) * 10 ** 6)))
+                elif isinstance(v, float):
+                    if v != v:
+                        row.append(-1)
+                    else:
+                        alldec = False
+                        row.append(int(round(v * 10 ** 6)))
+                else:
+                    row.append(-1)
+            nums.append(row)
+    return order, nums, alldec
+
+
+def pair_c20(job):
+    pid, seed = job
+    try:
+        ciw = _ciw()
+        rng = random.Random("c20/%d" % seed)
+        sc = gen_cont(rng)
+        # ordinary nodes; schedules only with dates that are exact in binary (open finding F10 otherwise)
+        for s in sc["servers"]:
+            if isinstance(s, dict):
+                s["ends"] = [float(round(e * 2) / 2.0) + 0.5 * (j + 1) for j, e in enumerate(s["ends"])]
+                s["ends"] = sorted(set(s["ends"]))
+                s["nums"] = s["nums"][:len(s["ends"])]
+                s["off"] = float(round(s["off"] * 2) / 2.0)
+        sc["tracker"] = None
+        sc["T"] = min(sc["T"], 40.0)
+        k = rng.choice([14, 20, 28, 50])
+        ciw.seed(seed)
+        N = build_cont(sc)
+        Qe = ciw.Simulation(N, exact=k)
+        Qe.simulate_until_max_time(sc["T"])
+        ciw.seed(seed)
+        Qf = ciw.Simulation(build_cont(sc))
+        Qf.simulate_until_max_time(sc["T"])
+        oa, na, deca = nums_of(Qe)
+        ob, nb, _ = nums_of(Qf)
+        a = {"recs": [], "clock": "", "hist": [], "busy": [], "util": [], "alldec": bool(deca), "order": oa, "nums": na}
+        b = {"recs": [], "clock": "", "hist": [], "busy": [], "util": [], "alldec": True, "order": ob, "nums": nb}
+        return {"pid": pid, "prop": "C20", "a": a, "b": b, "scenario": sc, "seed": seed, "exact": k}, None
     except Exception:
         return None, traceback.format_exc()
